@@ -9,7 +9,9 @@ operations followed by the same probes. Correspondence with the Lean model on th
 
 import copy
 import json
+import os
 import pickle
+import textwrap
 import typing
 
 import extract
@@ -321,6 +323,8 @@ def run(tier, seed, out, drv, facts):
         evaluate_after(out, f"direct:{name}:{cls}:released", f"fault of class {cls} at {name} (the exception object released)", {"operation": name, "class": cls})
     other_thread_cases(out)
     same_context_continues(out)
+    recursion_limit_sweep(out)
+    after_failed_hooked_import(out)
     annotation_reuse_cases(out)
     pickling_cases(out)
     # --- random histories of public-API operations, then probes
@@ -423,6 +427,123 @@ def same_context_continues(out):
                 out.violation(f"same-context:{scope}", f"inside one {scope} (T bound to a pair, a=3, *v=(2, 5){', n=7 an argument' if scope == 'call' else ''}) the probes must give {w}; "
                               f"before the aborted check ({rname}: {res.get('raised')}, caught) they give {res.get('before')}, after it {res.get('after')}", {"same_context": [rname, scope]})
                 return
+
+
+def recursion_limit_sweep(out):
+    """a check started with almost no stack left: wherever the RecursionError strikes — inside the flattening, inside a
+    leaf check, between setting and clearing a flag — the thread is at rest afterwards (probes as on a fresh thread).
+    Swept over every stack depth near the limit on a scratch thread, for PyTrees with and without a structure name, for
+    `Any` leaves (no wrapper is built before the flag is set) and array leaves, for plain array checks and blocks."""
+    import sys
+    import threading
+
+    checks = [
+        ("PyTree[Any]", lambda: isinstance([1, (2, 3), {"k": 4}], PyTree[typing.Any])),
+        ("PyTree[Any, 'T']", lambda: isinstance([1, (2, 3)], PyTree[typing.Any, "T"])),
+        ("PyTree[Float['?n'], 'T']", lambda: isinstance((Duck((2,), "float32"), Duck((3,), "float32")), PyTree[Float[Duck, "?n"], "T"])),
+        ("PyTree[int]", lambda: isinstance([1, 2], PyTree[int])),
+        ("array check in a block", lambda: _block_check()),
+    ]
+
+    def _block_check():
+        with jaxtyped("context"):
+            return isinstance(Duck((2, 3), "float32"), Float[Duck, "a b"])
+
+    def pad(k, thunk):
+        return thunk() if k == 0 else pad(k - 1, thunk)
+
+    result = {}
+
+    def body():
+        old = sys.getrecursionlimit()
+        try:
+            for cname, chk in checks:
+                # find the deepest padding at which the check still succeeds, then sweep from there to where even the call fails
+                sys.setrecursionlimit(220)
+                hit = 0
+                for k in range(60, 215):
+                    try:
+                        pad(k, chk)
+                        how = "ok"
+                    except RecursionError:
+                        how = "RecursionError"
+                        hit += 1
+                    except BaseException as e:  # noqa: BLE001
+                        how = type(e).__name__
+                    sys.setrecursionlimit(max(old, 1000))
+                    resid = impl_prog.residual_state(reset=False)
+                    probes = impl_prog.probe_clean()
+                    bad = [p_ for p_, v in probes.items() if not v]
+                    impl_prog.residual_state(reset=True)
+                    sys.setrecursionlimit(220)
+                    if how != "ok" and (bad or resid["depth"] != 0 or resid["flatten"] or resid["tp"]):
+                        result.setdefault("violations", []).append((cname, k, how, bad, resid))
+                        break
+                result[cname] = hit
+        finally:
+            sys.setrecursionlimit(old)
+
+    t = threading.Thread(target=body)
+    t.start()
+    t.join(300)
+    for cname, _ in checks:
+        out.case(("recursion-sweep", cname), result.get(cname, 0) > 0, sample={"check": cname, "depths_with_RecursionError": result.get(cname, 0)})
+    for cname, k, how, bad, resid in result.get("violations", [])[:1]:
+        out.violation(f"recursion-sweep:{','.join(bad) or 'state'}", f"{cname} run under {k} padding frames with a recursion limit of 220 ended with {how}; afterwards probes failing={bad}, "
+                      f"residual thread state={resid}", {"recursion_sweep": cname, "depth": k})
+
+
+def after_failed_hooked_import(out):
+    """an import under the hook that FAILS inside the loader (a module that does not compile), caught by the program: the
+    interpreter's import machinery is what it was — a module imported afterwards without the hook is cached under the
+    interpreter's own name and runs unmodified, one imported under the hook is instrumented"""
+    import subprocess
+
+    from common import PY, REPO, scratch_dir
+
+    runner = textwrap.dedent('''
+        import sys, json, importlib
+        root, repo = sys.argv[1], sys.argv[2]
+        sys.dont_write_bytecode = False
+        sys.path[:0] = [root, repo]
+        import jaxtyping
+        import importlib._bootstrap_external as be
+        res = {"name_before": be.cache_from_source("/x/m.py")}
+        with jaxtyping.install_import_hook(["c12good", "c12broken"], "typeguard.typechecked"):
+            import c12good
+            try:
+                import c12broken
+                res["broken"] = "imported"
+            except SyntaxError:
+                res["broken"] = "SyntaxError"
+        res["name_after"] = be.cache_from_source("/x/m.py")
+        import c12plain
+        res["plain_cached"] = "jaxtyping" in (c12plain.__cached__ or "")
+        def verdict(m):
+            try:
+                m.f("not an int"); return "accepted"
+            except jaxtyping.TypeCheckError:
+                return "rejected"
+        res["plain"] = verdict(c12plain); res["good"] = verdict(c12good)
+        print(json.dumps(res))
+    ''')
+    body = "def f(x: int) -> int:\n    return x\n"
+    with scratch_dir("jaxverif_c12imp_") as root:
+        for name, src in (("c12good", body), ("c12plain", body), ("c12broken", "def f(x: int) -> int:\n    return x +\n")):
+            with open(os.path.join(root, name + ".py"), "w") as fh:
+                fh.write(src)
+        r = subprocess.run([PY, "-c", runner, root, REPO], capture_output=True, text=True, timeout=300,
+                           env={k: v for k, v in os.environ.items() if k != "PYTHONDONTWRITEBYTECODE"})
+    try:
+        got = json.loads(r.stdout.strip().splitlines()[-1])
+    except Exception:  # noqa: BLE001
+        out.violation("failed-hooked-import:run-failed", f"the run failed: {r.stderr[-400:]}", {"failed_hooked_import": True})
+        return
+    out.case(("failed-hooked-import",), got.get("broken") == "SyntaxError", sample=got)
+    if got.get("name_before") != got.get("name_after") or got.get("plain_cached") or got.get("plain") != "accepted" or got.get("good") != "rejected":
+        out.violation("failed-hooked-import", f"after a hooked import that failed with {got.get('broken')} (caught): the bytecode name of /x/m.py is {got.get('name_after')} "
+                      f"(before: {got.get('name_before')}), a module imported plainly afterwards is cached under the hook's name: {got.get('plain_cached')}, an ill-typed call "
+                      f"into it is {got.get('plain')} (accepted), into the hooked module {got.get('good')} (rejected)", {"failed_hooked_import": True})
 
 
 def annotation_reuse_cases(out):
@@ -552,6 +673,12 @@ def other_thread_cases(out):
 
 
 def replay(rep, out, drv, facts):
+    if "recursion_sweep" in rep:
+        recursion_limit_sweep(out)
+        return
+    if "failed_hooked_import" in rep:
+        after_failed_hooked_import(out)
+        return
     if "same_context" in rep:
         same_context_continues(out)
         return
